@@ -30,9 +30,10 @@ CONSTANTS Dev, Part,
           \* part S
           Streams, Observers, Max, MaxOpens
 
-DevNames == {"DevPrefixMatch", "DevBaseOfPath", "DevNoArgCheck", "DevEmptyPasswordOK", "DevCaseFold",
+DevNames == {"DevPrefixMatch", "DevBaseOfPath", "DevNoArgCheck", "DevEmptyPasswordOK", "DevCaseFold", "DevArgValueOnly",
+             "DevAuthDependsOnHistory",
              "DevCheckThenAct", "DevDoubleRelease", "DevOffByOne"}
-ASSUME Dev \subseteq DevNames /\ Part \in {"D", "S"}
+ASSUME Dev \subseteq DevNames /\ Part \in {"D", "H", "S"}
 
 (***************************************************************************)
 (* Part D                                                                  *)
@@ -89,14 +90,20 @@ ImplCmdD(c, D) ==                                                \* IsCommandAll
   ELSE IF "DevPrefixMatch" \in D THEN \E w \in c.wl : IsPrefixS(w, c.cmd)
   ELSE IF "DevCaseFold" \in D THEN \E w \in c.wl : LowerS(w) = LowerS(c.cmd)
   ELSE c.cmd \in c.wl
+\* deviation: only the part after the first '=' of an argument (the "value" of --key=value) is inspected
+RECURSIVE AfterEq(_)
+AfterEq(a) == IF a = <<>> THEN <<>> ELSE IF Head(a) = "=" THEN Tail(a) ELSE AfterEq(Tail(a))
+ValueOf(a) == IF Has(a, {"="}) THEN AfterEq(a) ELSE a
 ImplArgsD(c, D) ==                                               \* ValidateArgs
-  IF Wildcard(c.wl) \/ "DevNoArgCheck" \in D THEN TRUE ELSE ArgsClean(c.args)
+  IF Wildcard(c.wl) \/ "DevNoArgCheck" \in D THEN TRUE
+  ELSE IF "DevArgValueOnly" \in D THEN ArgsClean([i \in 1..Len(c.args) |-> ValueOf(c.args[i])])
+  ELSE ArgsClean(c.args)
 ImplD(c, D) == c.enabled /\ ImplAuthD(c, D) /\ ImplCmdD(c, D) /\ ImplArgsD(c, D)
 Impl(c) == ImplD(c, Dev)
 
 \* sensitivity of the decision domain, decided in the same TLC run: for every decision deviation a case of the domain
 \* in which the deviating implementation starts a process the statement forbids ("" if the domain has none)
-DDevs == {"DevPrefixMatch", "DevBaseOfPath", "DevNoArgCheck", "DevEmptyPasswordOK", "DevCaseFold"}
+DDevs == {"DevPrefixMatch", "DevBaseOfPath", "DevNoArgCheck", "DevEmptyPasswordOK", "DevCaseFold", "DevArgValueOnly"}
 DevWitness(d) == LET bad == {x \in Cases : ImplD(x, {d}) /\ ~MayStart(x)} IN
                  IF bad = {} THEN [found |-> FALSE] ELSE [found |-> TRUE, n |-> Cardinality(bad), c |-> CHOOSE x \in bad : TRUE]
 DevReport == PrintT("DEVCHK " \o ToJson([d \in DDevs |-> DevWitness(d)]))
@@ -122,6 +129,32 @@ DNext == FALSE /\ UNCHANGED vars
 OnlyAuthorised == Impl(c) => MayStart(c)
 \* not part of the property (used to report over-restriction as a binding note): the code is not stricter than needed
 NotStricter == MayStart(c) => Impl(c)
+
+(***************************************************************************)
+(* Part H (history): request SEQUENCES on one live executor whose          *)
+(* password is configured.  The authorisation decision must not depend on  *)
+(* what was presented before: a request is authorised iff its own password *)
+(* matches.  The state is the sequence of passwords presented so far       *)
+(* (variable c), bounded by MaxOpens; HPws are abstract password classes   *)
+(* ("match", a proper "prefix" / "suffix" of the real password, the real   *)
+(* password with something appended "longer", "wrong", "absent").          *)
+(***************************************************************************)
+HPws == {"match", "prefix", "suffix", "longer", "wrong", "absent"}
+HInit == /\ c = <<>> /\ sessions = 0 /\ pc = <<>> /\ obs = <<>> /\ opens = 0 /\ last = [act |-> "Init"]
+\* deviation: once the real password has been verified, a prefix of it is accepted (a cache compared on a common length)
+HAccept(hist, pw) ==
+  \/ pw = "match"
+  \/ /\ "DevAuthDependsOnHistory" \in Dev /\ pw = "prefix"
+     /\ \E i \in 1..Len(hist) : hist[i] = "match"
+HRequest(pw) ==
+  /\ Len(c) < MaxOpens
+  /\ c' = Append(c, pw)
+  /\ last' = [act |-> "Request", pw |-> pw, ok |-> HAccept(c, pw)]
+  /\ UNCHANGED <<sessions, pc, obs, opens>>
+HNext == \E pw \in HPws : HRequest(pw)
+\* C25 (history-free authorisation): whatever came before, only the matching password starts a process
+HOnlyMatching == last.act = "Request" /\ last.ok => last.pw = "match"
+HEmitEdge == PrintT("EDGE " \o ToJson([s |-> c, a |-> last', t |-> c']))
 
 (***************************************************************************)
 (* Part S                                                                  *)
